@@ -123,9 +123,13 @@ ITER_SIZES_Q = [("BucketsSize", 1), ("BucketsSize", 2), ("BucketsSize", 4), ("Bu
 def wl_iter(tier, seed):
     if tier == "quick":
         return [("iter", iter_batch(seed, ITER_SIZES_Q), dict(per_tlc=2, tlc_jobs=6)),
+                ("iterpairs", [gen.gen_iter_pairs(seed * 1000 + 350 + i, idbase=(70 + i) * IDSTEP, n=n, name="iterpairs_%d" % n) for i, n in enumerate((128, 256, 4096))],
+                 dict(per_tlc=1, tlc_jobs=3)),
                 ("l2", l2_batch(seed + 5, 4, nops=60, base=60, iter_every=2), dict(per_tlc=1, tlc_jobs=4))]
     sizes = ITER_SIZES_Q * 4 + [("BucketsSize", 32), ("BucketsSize", 512), ("BucketsSize", 2048), ("BucketsSize", 4096), ("BucketsSize", 32768), ("Capacity", 57), ("Capacity", 7), ("Capacity", 1)] * 2
     return [("iter", iter_batch(seed, sizes, rounds=8), dict(per_tlc=4, tlc_jobs=8)),
+            ("iterpairs", [gen.gen_iter_pairs(seed * 1000 + 350 + i, idbase=(70 + i) * IDSTEP, n=n, kt=gen.KTS[i % 2], name="iterpairs_%d_%d" % (n, i))
+                           for i, n in enumerate((128, 128, 256, 256, 512, 1024, 4096, 65536, 1 << 20))], dict(per_tlc=1, tlc_jobs=8)),
             ("l2", l2_batch(seed + 5, 20, nops=150, base=200, iter_every=2), dict(per_tlc=2, tlc_jobs=8))]
 
 
@@ -147,6 +151,10 @@ def wl_sync(tier, seed):
     # the same kind of scenarios with the OS syncs observed at syscall level (strace) instead of the hook
     n2 = 2 if tier == "quick" else 16
     out2 = [gen.gen_sync(seed * 1000 + 260 + i, idbase=(200 + i) * IDSTEP, nops=60 if tier == "quick" else 200, nmaps=1 + i % 3, kill=False, name="syncsys_%d" % i) for i in range(n2)]
+    # record relocation (bucket head rewritten by an overwrite) followed by flush and a snapshot
+    rel = [gen.gen_reloc(seed * 1000 + 280 + i, idbase=(300 + i) * IDSTEP, nops=80 if tier == "quick" else 300, name="syncreloc_%d" % i, snap=True)
+           for i in range(3 if tier == "quick" else 16)]
+    batches.append(("sync_reloc", rel, dict(per_tlc=1, tlc_jobs=6)))
     batches.append(("sync_strace", out2, dict(per_tlc=2, tlc_jobs=8, max_slots=300, strace=True, op_timeout=60)))
     return batches
 
@@ -169,6 +177,14 @@ def wl_fault(tier, seed):
             out.append(gen.gen_fault(seed * 1000 + 400 + i, idbase=i * IDSTEP, shape=shape, threshold=t, syncop=syncop,
                                      second=second, name="fault_%s_%d" % (shape, t)))
             i += 1
+    # the same call is retried while the condition persists and after it is lifted, with updates in between
+    # (the failing file is the second or third one written: the first one was complete before the error)
+    for j in range(6 if tier == "quick" else 60):
+        shape = ("key", "htx", "val")[j % 3]
+        t = rng.choice([1000, 4096, 131072, 200000] if shape != "val" else [192, 1000, 131072])
+        out.append(gen.gen_fault(seed * 1000 + 470 + j, idbase=i * IDSTEP, shape=shape, threshold=t, syncop=("flush", "sync_data", "flush", "sync_all")[j % 4],
+                                 retry=True, name="faultretry_%s_%d_%d" % (shape, t, j)))
+        i += 1
     return [("fault", out, dict(per_tlc=4 if tier == "quick" else 8, tlc_jobs=8, max_slots=300))]
 
 
@@ -240,7 +256,7 @@ def wl_twice(tier, seed):
         nb = rng.choice([("BucketsSize", 1), ("BucketsSize", 16), ("BucketsSize", 32), ("BucketsSize", 64), ("Capacity", 100), ("BucketsSize", 1024)])
         bufs = None if i % 2 == 0 else [rng.choice(gen.BUF_PARAMS) for _ in range(3)]
         out.append(gen.gen_twice(seed * 1000 + 900 + i, idbase=i * IDSTEP, nops=nops, nb=nb, kt=gen.KTS[i % 5], bufs=bufs, name="twice_%d" % i,
-                                 nkeys=20 if i % 2 else 3, tail=(i % 4 == 0)))
+                                 nkeys=20 if i % 2 else 3, tail=(i % 4 == 0), same_process=(i % 3 == 1)))
     return [("twice", out, dict(per_tlc=2 if tier == "quick" else 5, tlc_jobs=8, max_slots=300))]
 
 
@@ -303,7 +319,7 @@ def wl_layout(tier, seed):
         wins = [(0, 70000)] + [(b - 300, b + 300) for b in (131072, 1 << 20, (1 << 21), (1 << 24) - 600)]
         probe = gen.gen_probe(wins, 3000, ([192, 16384, 2097152], [0, 192, 16384]), chunk=100000)
         lens = sorted(set(list(range(0, 260)) + rng.sample(range(260, 4200), 60) + [1017, 1018, 1019, 1020, 1021, 1022, 1023, 4093, 4094, 4095, 4096]))
-        big = [131060 + i for i in range(0, 20, 3)]
+        big = [131060 + i for i in range(0, 20, 3)] + [(1 << 21) - 4, (1 << 21) - 3, (1 << 21) + 1]
     else:
         probe = gen.gen_probe([(0, 1 << 24)], 65536, KOFF)
         lens = list(range(0, 4201))
@@ -316,7 +332,15 @@ def wl_layout(tier, seed):
     inpl = [gen.gen_inplace(seed * 1000 + 900 + i, idbase=(800 + i) * IDSTEP, slots=sl, name="inplace_%d" % i)
             for i, sl in enumerate([[16, 24, 32, 48], [64, 128, 256], [384, 1024, 1152], [16512]] if tier == "quick" else
                                    [[16, 24, 32], [48, 64, 80], [96, 112, 128], [256, 384], [512, 640], [768, 896], [1024, 1152], [1280, 2048], [16512], [16640, 131200]])]
+    if tier == "quick":
+        klens = [sorted(set(list(range(0, 40)) + rng.sample(range(40, 1100), 25) + [1009, 1010, 1011, 1012, 1013])),
+                 [4080, 16370, 65535, 65536, 130900, 131040, 131072, 200000]]
+    else:
+        klens = [list(range(a, a + 150)) for a in range(0, 1200, 150)] + \
+                [[x + d for d in range(-12, 13, 3)] for x in (4096, 16384, 65536, 131072 - 60, 131072, 1 << 20, (1 << 21) + 100)]
+    ksw = [gen.gen_keysweep(seed * 1000 + 700 + i, idbase=(900 + i) * IDSTEP, klens=kl, name="keysweep_%d" % i) for i, kl in enumerate(klens)]
     return [("probe", [probe], dict(per_tlc=1, tlc_jobs=1, xmx="6g", tlc_timeout=7200)),
+            ("keysweep", ksw, dict(per_tlc=1, tlc_jobs=8, xmx="4g", op_timeout=60)),
             ("inplace", inpl, dict(per_tlc=1, tlc_jobs=8, op_timeout=60)),
             ("sweep", sweeps, dict(per_tlc=1, tlc_jobs=8)),
             ("sweepbig", bigs, dict(per_tlc=1, tlc_jobs=8, xmx="4g", op_timeout=60))] + wl_core(tier, seed)[:1]
